@@ -1038,6 +1038,24 @@ def check_tick(rep, fl):
     if periodic:
         x, (bi, t) = periodic[0]
         ok = is_period(x, x.call_args(t)[0], False)
+        # ... and it ticks from the start, whatever the cache is used for: created once, on every path, before the loop
+        # (a ticker that is armed later - by the first item of some kind - never sweeps entries that got their TTL another way)
+        ok = ok and len(periodic) == 1 and not x.in_loop(bi) and must_pass_through(x, [bi])
+        if ok and not t["dest"]["p"]:
+            # the channel the loop receives from is that ticker and nothing else (no `never()` placeholder swapped for it)
+            tl = t["dest"]["l"]
+            tv = norm(x.place_expr(t["dest"], False))
+            carriers = {tl}
+            for _ in range(3):
+                for l_, ds_ in x.defs.items():
+                    for dbi, dsi in ds_:
+                        blk = x.blocks[dbi]
+                        if dsi < len(blk["stmts"]):
+                            st_ = blk["stmts"][dsi]
+                            rv_ = st_.get("rv") or {}
+                            if rv_.get("k") == "use" and rv_["op"].get("k") in ("move", "copy") and not rv_["op"]["pl"]["p"] and rv_["op"]["pl"]["l"] in carriers:
+                                carriers.add(l_)
+            ok = all(len(x.defs.get(l_, [])) == 1 for l_ in carriers)
     elif oneshot:
         x, (bi, t) = oneshot[0]
         deadline = callee_matches(x.callee_of(t), "at") or x.callee_of(t).endswith("::at")
@@ -1195,6 +1213,9 @@ def check_C05(rep, fl):
     props_cache.check_policy_cost(rep, fl)   # "handed to on_evict .. with its .. charged cost"
     check_single_section(rep, fl, "R05.2", [EM + "::try_insert", EM + "::try_update", EM + "::try_remove", EM + "::try_cleanup"],
                          "looking a bucket up and creating, filling or removing it")
+    # "within a bounded delay": the sweep is never stuck behind a lock cycle between the expiry index and the shards
+    import props_locks
+    props_locks.check_lock_order(rep, fl, rule="R05.7")
     # "within .. one cleanup interval": the configured interval is the one the processor ticks with
     import props_panic
     props_panic.check_builder_plumbing(rep, fl, only_sites=("set_cleanup_duration", "set_* keeps cleanup_duration", "flags -> processor"))
